@@ -137,6 +137,9 @@ func (gme *GCPMultiEndpoint) NewStream(ctx context.Context, desc *grpc.StreamDes
 
 func (gme *GCPMultiEndpoint) pickConn(ctx context.Context) *grpc.ClientConn {
 	name, ok := FromMEContext(ctx)
+	// mes, pools and defaultName are modified by UpdateMultiEndpoints.
+	gme.mu.RLock()
+	defer gme.mu.RUnlock()
 	me, ook := gme.mes[name]
 	if !ok || !ook {
 		me = gme.mes[gme.defaultName]
